@@ -51,6 +51,8 @@ def gen_case(rng: random.Random, tier: str) -> dict:
         "sweep": rng.random() < 0.5,
         "perm_seed": rng.randrange(1 << 30),
         "tier": tier,
+        "touch": rng.random() < 0.25,
+        "kw_split": rng.randrange(1 << 30) if rng.random() < 0.25 else None,
     }
     return doc
 
@@ -69,6 +71,20 @@ def _permuted(g: dict, seed: int) -> dict:
         gr["order"] = order
         for nd in gr["nodes"]:
             if nd["kind"] == "graph":
+                walk(nd["graph"])
+
+    walk(g2)
+    return g2
+
+
+def _with_touch(g: dict) -> dict:
+    g2 = copy.deepcopy(g)
+
+    def walk(gr: dict) -> None:
+        gr["touch"] = True
+        for nd in gr["nodes"]:
+            if nd["kind"] == "graph":
+                nd["touch"] = ["spec", "graph"]
                 walk(nd["graph"])
 
     walk(g2)
@@ -145,7 +161,9 @@ def run_case(doc: dict) -> dict:
     prods = _producers(g)
 
     def world(gspec, mode, cfg=None):
-        w = run_world(gspec, values, mode=mode, cfg=cfg, faults=copy.deepcopy(faults), run_kwargs=dict(kw))
+        if doc.get("touch"):
+            gspec = _with_touch(gspec)
+        w = run_world(gspec, values, mode=mode, cfg=cfg, faults=copy.deepcopy(faults), run_kwargs=dict(kw), kw_split=doc.get("kw_split"))
         rts.append(w["rt"])
         res["runs"] += 1
         sim_stats(res, w["out"])
